@@ -296,6 +296,7 @@ class Dewar(Slave):
                 retval = DEF.CMD_ACK
             elif (port_type == DEF.PORT_TYPE_DIO and
                     data_type == DEF.DATA_TYPE_B01):
+                value = 0  # bits that are not connected read as 0
                 if port_number == DEF.PORT_NUMBER_00:
                     # LO selector
                     value = self.LO_selector
@@ -475,6 +476,7 @@ class Switch(Slave):
                 retval = DEF.CMD_ACK
             elif (port_type == DEF.PORT_TYPE_DIO and
                     data_type == DEF.DATA_TYPE_B01):
+                value = 0  # bits that are not connected read as 0
                 if port_number == DEF.PORT_NUMBER_00:
                     # LO selector
                     value = self.LO_selector
@@ -730,6 +732,10 @@ class LNA(Slave):
                     else:
                         data += '\x00' * 32
                         retval = DEF.CMD_ACK
+                else:
+                    key = (data_type, port_type, port_number)
+                    data += self.port_settings.get(key, '\x00')
+                    retval = DEF.CMD_ACK
             else:
                 key = (data_type, port_type, port_number)
                 data += self.port_settings.get(key, '\x00')
